@@ -124,6 +124,12 @@ func genC16(t *rapid.T, ctx *Ctx) interface{} {
 				o.MaxTyped = 30
 				for {
 					op.Type = gen.GenType(t, o, 0)
+					if c.Recursion && hasZeroSizeElems(op.Type) && findingOpen("S52-same-address-slices-merged") {
+						// with recursion support distinct slices of zero-sized elements are written as one marked list
+						// (S52, listed under C05); which of them is written out depends on Go's map order
+						ctx.Stats.Exclude("S52-same-address-slices-merged")
+						continue
+					}
 					if op.Type.K != "iface" {
 						break
 					}
